@@ -349,17 +349,18 @@ def evaluate_image(img, cut, stored, ends, ops, out, base_case, stats, cov):
         for i in range(nv, len(out)):
             out[i] = (out[i][0], dict(base_case, cut=cut, op=list(op)), out[i][2])
         cov["evaluations"] += 1
-        if nonempty or partial:
-            cov["distinct_nontrivial"] += 1
         if nonempty:
-            cov["expect_messages"] += 1
+            cov["distinct_nontrivial"] += 1
+        elif partial:
+            cov["partial_record_only"] += 1
     cov["images"] += 1
-    cov["images_" + where.replace("-", "_")] += 1
+    k = "images_" + where.replace("-", "_")
+    cov[k] = cov.get(k, 0) + 1
 
 
 def new_cov():
-    return {"evaluations": 0, "distinct_nontrivial": 0, "expect_messages": 0, "images": 0, "images_uncut": 0,
-            "images_boundary": 0, "images_in_header": 0, "images_in_body": 0, "histories": 0,
+    return {"evaluations": 0, "distinct_nontrivial": 0, "partial_record_only": 0, "images": 0, "images_uncut": 0,
+            "images_in_header": 0, "images_in_body": 0, "histories": 0,
             "call_patterns_written": 0, "call_patterns_identical_image": 0, "octets_cut": 0}
 
 
@@ -428,9 +429,10 @@ def run(ctx):
                  "of record i equals the image of h[:i] cut there (prefix stability is verified for every history and "
                  "call pattern), so each distinct image is evaluated exactly once (in the unit of the shortest history "
                  "producing it, with the index ranges of the longest); call patterns producing identical octets are "
-                 "read once. evaluations = read operations executed and judged; non-trivial = the oracle expects at "
-                 "least one message (compared field by field incl. all burst bits) or the image ends in a partial "
-                 "record that must be dropped" % (c["histories"], nmax, NMENU, nmax + 1, nmax + 1, nmax + 1))
+                 "read once. evaluations = read operations executed and judged, each (image, operation) pair once; "
+                 "non-trivial = the oracle expects at least one message back (compared field by field incl. all burst "
+                 "bits); partial_record_only = nothing is expected but the image ends in a partial record that must be "
+                 "dropped silently" % (c["histories"], nmax, NMENU, nmax + 1, nmax + 1, nmax + 1))
     c["exhaustive"] = True
     ctx.assumptions += [
         "io.BytesIO stands for the capture file (short read at EOF, seek past EOF allowed), as in DESIGN.md",
